@@ -525,7 +525,7 @@ Definition exec_micro (e : exec) (me : nat) (m : micro) : mres :=
       | Some s =>
           let cnt := S (ch_cnt s) in
           let ss := sync_store (ch_sender_sync s) (caus_of e me) (rel_of e me) Release in
-          let e := upd_object e h (fun _ => OChannel (mkChan cnt (ch_last_send s) (ch_last_recv s) ss (ch_recv_sync s ++ [ss]))) in
+          let e := upd_object e h (fun _ => OChannel (mkChan cnt (ch_last_send s) (ch_last_recv s) ss (ch_recv_sync s ++ [ss]) (ch_last_try_recv s))) in
           let e := if Nat.eqb cnt 1 then map_others e me (pending_on h) set_runnable else e in
           let rx := ho_rx (get_h e h) in
           let e := if rx then upd_hobj e h (fun ho => ho_set_q ho (ho_q ho ++ [v])) else e in
@@ -543,7 +543,7 @@ Definition exec_micro (e : exec) (me : nat) (m : micro) : mres :=
       | Some s =>
           match ch_cnt s, ch_recv_sync s with
           | S cnt, sy :: rest =>
-              let e := upd_object e h (fun _ => OChannel (mkChan cnt (ch_last_send s) (ch_last_recv s) (ch_sender_sync s) rest)) in
+              let e := upd_object e h (fun _ => OChannel (mkChan cnt (ch_last_send s) (ch_last_recv s) (ch_sender_sync s) rest (ch_last_try_recv s))) in
               let e := set_caus e me (sync_load (caus_of e me) sy Acquire) in
               let e := if Nat.eqb cnt 0 then map_others e me (pending_on_act h ARecv) set_blocked else e in
               match ho_q (get_h e h) with
@@ -557,13 +557,17 @@ Definition exec_micro (e : exec) (me : nat) (m : micro) : mres :=
       end
 
   | MTryRecv h =>
+      (* Receiver::try_recv: branch (never disabled), then look at the queue *)
       if negb (ho_rx (get_h e h)) then MOk (log_op e me RX)
-      else match get_chan e h with
-           | None => MFail e (PanicModel 19)
-           | Some s =>
-               if Nat.eqb (ch_cnt s) 0 then MOk (log_op e me REmpty)
-               else MOk (push_cont e me [MBranch h ARecv BChanEmpty; MRecvPost h true])
-           end
+      else MOk (push_cont e me [MBranch h ATryRecv BNever; MTryRecvPost h])
+
+  | MTryRecvPost h =>
+      match get_chan e h with
+      | None => MFail e (PanicModel 19)
+      | Some s =>
+          if Nat.eqb (ch_cnt s) 0 then MOk (log_op e me REmpty)
+          else MOk (push_cont e me [MRecvPost h true])
+      end
 
   | MDropRx h =>
       (* Receiver::drop: `while !is_empty { recv }` ; the queue itself dies with it *)
